@@ -251,6 +251,9 @@ def worktree():
     return wt
 
 
+KNOWN_SURVIVORS: set = set()  # recheck mode: ids the suite is already known to let through
+
+
 def run_one(m):
     wt = worktree()
     f = wt / m["file"]
@@ -258,10 +261,13 @@ def run_one(m):
     assert src[m["start"] : m["end"]] == m["old"], m["id"]
     f.write_text(src[: m["start"]] + m["new"] + src[m["end"] :])
     try:
-        env = dict(os.environ, PYTHONPATH=f"{wt}/src", PYTHONDONTWRITEBYTECODE="1")
-        c, o = sh(f"{PY} -m pytest -q -x -p no:cacheprovider --timeout=120 2>&1 | tail -3", cwd=wt, env=env, timeout=400)
-        tail = o.strip().splitlines()[-1] if o.strip() else ""
-        survived = bool(re.search(r"\b\d+ passed", tail)) and "failed" not in tail and "error" not in tail
+        if m["id"] in KNOWN_SURVIVORS:
+            survived, tail = True, "(suite result taken from the earlier run)"
+        else:
+            env = dict(os.environ, PYTHONPATH=f"{wt}/src", PYTHONDONTWRITEBYTECODE="1")
+            c, o = sh(f"{PY} -m pytest -q -x -p no:cacheprovider --timeout=120 2>&1 | tail -3", cwd=wt, env=env, timeout=400)
+            tail = o.strip().splitlines()[-1] if o.strip() else ""
+            survived = bool(re.search(r"\b\d+ passed", tail)) and "failed" not in tail and "error" not in tail
         res = {"id": m["id"], "suite": tail[:120], "survived": survived}
         if survived:
             env2 = dict(os.environ, TLVERIF_REPO=str(wt), TLVERIF_NO_EVIDENCE="1")
@@ -338,5 +344,18 @@ if __name__ == "__main__":
                 ops = set(rest[1].split(","))
             rest = rest[2:]
         run(a[1], a[2], jobs, only, ops)
+    elif a[0] == "recheck":
+        # mutate.py recheck mutants.jsonl old_results.jsonl new_results.jsonl [--jobs N]: re-run the checks on the mutants the suite let through
+        old = [json.loads(l) for l in open(a[2])]
+        KNOWN_SURVIVORS.update(r["id"] for r in old if r["survived"])
+        ms = [json.loads(l) for l in open(a[1])]
+        tmp = a[3] + ".mutants"
+        with open(tmp, "w") as fh:
+            for m in ms:
+                if m["id"] in KNOWN_SURVIVORS:
+                    fh.write(json.dumps(m) + "\n")
+        jobs = int(a[a.index("--jobs") + 1]) if "--jobs" in a else 14
+        run(tmp, a[3], jobs, None, None)
+        os.remove(tmp)
     elif a[0] == "report":
         report(a[1], a[2])
